@@ -194,6 +194,15 @@ func (e *Enc) Encode() {
 	e.entryHeap = &Heap{m: map[string]string{}, ep: ep0}
 	a0 := e.allocCounter(e.entryHeap)
 	_ = a0
+	nd := 0
+	for _, b := range fn.Blocks {
+		for _, ins := range b.Instrs {
+			if _, ok := ins.(*ssa.Defer); ok {
+				e.assert(not(e.heapGet(e.entryHeap, fmt.Sprintf("$s:defer%d", nd), "Bool")))
+				nd++
+			}
+		}
+	}
 	// parameters
 	for _, p := range fn.Params {
 		v := e.val(p)
@@ -203,6 +212,16 @@ func (e *Enc) Encode() {
 	for _, fv := range fn.FreeVars {
 		v := e.val(fv)
 		e.assert(e.refOld(v, e.entryHeap))
+	}
+	// implicit preconditions
+	{
+		var pv []Val
+		for _, p := range fn.Params {
+			pv = append(pv, e.val(p))
+		}
+		for _, ip := range e.implicitPre(fn) {
+			e.assert(e.implTerm(ip, pv, e.entryHeap))
+		}
 	}
 	// preconditions
 	if e.ct != nil {
@@ -409,9 +428,42 @@ func (e *Enc) loopHead(b *ssa.BasicBlock, li *loopInfo) {
 				e.oblige("inv-entry", fmt.Sprintf("loop%d.%d", li.ordinal, k), "", b.Instrs[0].Pos(), implies(e.namedEdge(p, b), t))
 			}
 		}
+		pidx := predIndex(b, p)
+		for k, ai := range e.autoInvariants(li) {
+			t := ai(func(v ssa.Value) string { return e.val(v).T }, func(ph *ssa.Phi) string { return e.val(ph.Edges[pidx]).T })
+			e.oblige("inv-entry", fmt.Sprintf("loop%d.auto%d", li.ordinal, k), "", b.Instrs[0].Pos(), implies(e.namedEdge(p, b), t))
+		}
 	}
-	// 2. havoc what the loop modifies
-	e.havocSet(e.cur, li.mod)
+	// 2. havoc what the loop modifies; keys the loop writes only in memory allocated by this function keep the cells
+	// that existed at function entry
+	{
+		existing := e.w.blockWritesExisting(li.blocks, e.fn)
+		a0 := e.allocCounter(e.entryHeap)
+		var keys []string
+		for k := range li.mod {
+			keys = append(keys, k)
+		}
+		sort.Strings(keys)
+		for _, k := range keys {
+			if k == "*" {
+				e.havocAll(e.cur)
+				break
+			}
+			if li.mod["*"] {
+				continue
+			}
+			if existing[k] || existing["*"] || strings.HasPrefix(k, "$") || k == "map" {
+				e.havocKey(e.cur, k)
+				continue
+			}
+			if _, known := e.heapSort[k]; !known {
+				if srt, ok := e.w.keySort(e, k); ok {
+					e.heapGet(e.cur, k, srt)
+				}
+			}
+			e.havocKeyFramed(e.cur, k, a0, nil)
+		}
+	}
 	for _, ins := range b.Instrs {
 		if phi, ok := ins.(*ssa.Phi); ok {
 			v := e.havocVal(phi)
@@ -423,6 +475,9 @@ func (e *Enc) loopHead(b *ssa.BasicBlock, li *loopInfo) {
 		e.assert(app(">=", e.allocCounter(e.cur), e.allocCounter(pre)))
 	}
 	// 3. assume the invariant
+	for _, ai := range e.autoInvariants(li) {
+		e.assert(implies(e.reach[b], ai(func(v ssa.Value) string { return e.val(v).T }, func(ph *ssa.Phi) string { return e.val(ph).T })))
+	}
 	li.headHeap = e.cur.clone()
 	if li.spec != nil {
 		env := e.loopEnv(b, li, nil, e.cur)
@@ -445,6 +500,11 @@ func (e *Enc) backEdge(p *ssa.BasicBlock, li *loopInfo) {
 		pos = b.Instrs[0].Pos()
 	}
 	cond := e.namedEdge(p, b)
+	pidx := predIndex(b, p)
+	for k, ai := range e.autoInvariants(li) {
+		t := ai(func(v ssa.Value) string { return e.val(v).T }, func(ph *ssa.Phi) string { return e.val(ph.Edges[pidx]).T })
+		e.oblige("inv-step", fmt.Sprintf("loop%d.auto%d", li.ordinal, k), "", pos, implies(cond, t))
+	}
 	if li.spec != nil {
 		env := e.loopEnv(b, li, p, e.outHeap[p])
 		for k, inv := range li.spec.Invariants {
@@ -477,8 +537,58 @@ func (e *Enc) rangeLoop(li *loopInfo) bool {
 	return false
 }
 
-// autoMeasure recognises `for i := …; i < n; i++` / `i > n; i--` shapes: a head phi compared against a loop-invariant
-// bound in the head's If, updated by a constant step on the back edge.
+// loopInvariantValue: v does not change while the loop runs (syntactic check).
+func (e *Enc) loopInvariantValue(v ssa.Value, li *loopInfo, depth int) bool {
+	if depth > 6 {
+		return false
+	}
+	ins, ok := v.(ssa.Instruction)
+	if !ok || !li.blocks[ins.Block()] {
+		return true // constants, parameters, values defined outside the loop
+	}
+	switch x := v.(type) {
+	case *ssa.BinOp:
+		return e.loopInvariantValue(x.X, li, depth+1) && e.loopInvariantValue(x.Y, li, depth+1)
+	case *ssa.Convert:
+		return e.loopInvariantValue(x.X, li, depth+1)
+	case *ssa.ChangeType:
+		return e.loopInvariantValue(x.X, li, depth+1)
+	case *ssa.Call:
+		if b, ok := x.Call.Value.(*ssa.Builtin); ok && (b.Name() == "len" || b.Name() == "cap") {
+			return e.loopInvariantValue(x.Call.Args[0], li, depth+1)
+		}
+	}
+	return false
+}
+
+// stepOf: if v is `phi + c` / `phi - c` for a head phi of this loop, return the phi and signed step.
+func stepOf(v ssa.Value, head *ssa.BasicBlock) (*ssa.Phi, int64, bool) {
+	if phi, ok := v.(*ssa.Phi); ok && phi.Block() == head {
+		return phi, 0, true
+	}
+	b, ok := v.(*ssa.BinOp)
+	if !ok {
+		return nil, 0, false
+	}
+	phi, ok := b.X.(*ssa.Phi)
+	if !ok || phi.Block() != head {
+		return nil, 0, false
+	}
+	c, ok := isConstInt(b.Y)
+	if !ok {
+		return nil, 0, false
+	}
+	switch b.Op {
+	case token.ADD:
+		return phi, c, true
+	case token.SUB:
+		return phi, -c, true
+	}
+	return nil, 0, false
+}
+
+// autoMeasure recognises counted loops: the head's If compares (a head phi, or phi±c) against a loop-invariant bound and
+// the back edge moves the phi strictly towards the bound.
 func (e *Enc) autoMeasure(li *loopInfo, p *ssa.BasicBlock) (string, bool) {
 	b := li.head
 	iff, ok := b.Instrs[len(b.Instrs)-1].(*ssa.If)
@@ -499,47 +609,113 @@ func (e *Enc) autoMeasure(li *loopInfo, p *ssa.BasicBlock) (string, bool) {
 		return "", false
 	}
 	try := func(x, bound ssa.Value, op token.Token) (string, bool) {
-		phi, ok := x.(*ssa.Phi)
-		if !ok || phi.Block() != b {
+		phi, off, ok := stepOf(x, b)
+		if !ok || !e.loopInvariantValue(bound, li, 0) {
 			return "", false
-		}
-		if bi, ok := bound.(ssa.Instruction); ok && li.blocks[bi.Block()] {
-			if _, isPhi := bound.(*ssa.Phi); !isPhi {
-				// bound computed inside the loop from loop-invariant data (e.g. len(s)) is fine if it is pure
-				switch bv := bound.(type) {
-				case *ssa.Call:
-					if bb, ok := bv.Call.Value.(*ssa.Builtin); !ok || bb.Name() != "len" {
-						return "", false
-					}
-				default:
-					return "", false
-				}
-			} else {
-				return "", false
-			}
 		}
 		cur := e.val(phi).T
 		next := e.val(phi.Edges[idx]).T
 		bd := e.val(bound).T
+		o := ilit(off)
 		switch op {
-		case token.LSS, token.LEQ, token.NEQ:
-			// measure bound - i decreases and is non-negative at the head when the body runs
-			return and(app(">", next, cur), app(">=", app("-", bd, cur), "0")), true
+		case token.LSS, token.LEQ:
+			// the body ran because cur+off < (<=) bound; measure bound - cur
+			return and(app(">", next, cur), app(">=", app("-", bd, app("+", cur, o)), "0")), true
 		case token.GTR, token.GEQ:
-			return and(app("<", next, cur), app(">=", app("-", cur, bd), "0")), true
+			return and(app("<", next, cur), app(">=", app("-", app("+", cur, o), bd), "0")), true
 		}
 		return "", false
 	}
 	if m, ok := try(cmp.X, cmp.Y, cmp.Op); ok {
 		return m, true
 	}
-	flip := map[token.Token]token.Token{token.LSS: token.GTR, token.GTR: token.LSS, token.LEQ: token.GEQ, token.GEQ: token.LEQ, token.NEQ: token.NEQ}
+	flip := map[token.Token]token.Token{token.LSS: token.GTR, token.GTR: token.LSS, token.LEQ: token.GEQ, token.GEQ: token.LEQ}
 	if op2, ok := flip[cmp.Op]; ok {
 		if m, ok := try(cmp.Y, cmp.X, op2); ok {
 			return m, true
 		}
 	}
 	return "", false
+}
+
+// autoInvariants: for a head phi whose back-edge value is phi+c (c>0) the fact phi >= entry value, and phi <= entry
+// value for c<0. They are proved like declared invariants (inv-entry/inv-step obligations), then assumed.
+func (e *Enc) autoInvariants(li *loopInfo) []func(get func(ssa.Value) string, phiVal func(*ssa.Phi) string) string {
+	var out []func(get func(ssa.Value) string, phiVal func(*ssa.Phi) string) string
+	b := li.head
+	for _, ins := range b.Instrs {
+		phi, ok := ins.(*ssa.Phi)
+		if !ok {
+			break
+		}
+		if _, _, isInt := intRange(phi.Type()); !isInt {
+			continue
+		}
+		var entry ssa.Value
+		step := int64(0)
+		good := true
+		for i, p := range b.Preds {
+			if b.Dominates(p) {
+				ph, c, ok := stepOf(phi.Edges[i], b)
+				if !ok || ph != phi || c == 0 || (step != 0 && (c > 0) != (step > 0)) {
+					good = false
+					break
+				}
+				step = c
+			} else {
+				if entry != nil && entry != phi.Edges[i] {
+					good = false
+					break
+				}
+				entry = phi.Edges[i]
+			}
+		}
+		if !good || entry == nil || step == 0 {
+			continue
+		}
+		phi0, entry0, step0 := phi, entry, step
+		out = append(out, func(get func(ssa.Value) string, phiVal func(*ssa.Phi) string) string {
+			if step0 > 0 {
+				return app(">=", phiVal(phi0), get(entry0))
+			}
+			return app("<=", phiVal(phi0), get(entry0))
+		})
+		// bound side: the head guard compares phi(+off) with a loop-invariant bound
+		if iff, ok := b.Instrs[len(b.Instrs)-1].(*ssa.If); ok {
+			if cmp, ok := iff.Cond.(*ssa.BinOp); ok {
+				x, y, op := cmp.X, cmp.Y, cmp.Op
+				if _, _, isX := stepOf(x, b); !isX {
+					flip := map[token.Token]token.Token{token.LSS: token.GTR, token.GTR: token.LSS, token.LEQ: token.GEQ, token.GEQ: token.LEQ}
+					x, y, op = y, x, flip[op]
+				}
+				ph, off, ok := stepOf(x, b)
+				if ok && ph == phi && e.loopInvariantValue(y, li, 0) {
+					bound0 := y
+					slack := step0 - 1
+					if step0 < 0 {
+						slack = -step0 - 1
+					}
+					if op == token.LEQ || op == token.GEQ {
+						slack++
+					}
+					up := (op == token.LSS || op == token.LEQ) && step0 > 0
+					down := (op == token.GTR || op == token.GEQ) && step0 < 0
+					if up || down {
+						out = append(out, func(get func(ssa.Value) string, phiVal func(*ssa.Phi) string) string {
+							lhs := app("+", phiVal(phi0), ilit(off))
+							e0 := app("+", get(entry0), ilit(off))
+							bd := get(bound0)
+							if up {
+								return app("<=", lhs, app("+", app("ite", app(">=", bd, e0), bd, e0), ilit(slack)))
+							}
+							return app(">=", lhs, app("-", app("ite", app("<=", bd, e0), bd, e0), ilit(slack)))
+						})
+					}
+				}
+			}
+		}
+	}
+	return out
 }
 
 // ---------------------------------------------------------------------------------------------
@@ -567,6 +743,9 @@ func (e *Enc) instr(ins ssa.Instruction) {
 		t := x.Type().(*types.Pointer).Elem()
 		e.registerLocalCells(x, e.vals[x].T)
 		e.store(h, e.vals[x].T, nil, t, e.zero(t))
+		if t.String() == "strings.Builder" {
+			h.m["$sb"] = app("store", e.heapGet(h, "$sb", "Int"), e.vals[x].T, "0")
+		}
 	case *ssa.FieldAddr:
 		base := e.val(x.X)
 		e.oblige("nil", descOf(e.exprText(x.X, x)), "", x.Pos(), e.guardGoal(app("distinct", base.T, "nil")))
@@ -687,15 +866,32 @@ func (e *Enc) instr(ins ssa.Instruction) {
 	case *ssa.Call:
 		e.call(x, x.Common(), x)
 	case *ssa.Defer:
+		if len(e.inLoop[e.curBlock]) > 0 {
+			e.unsupp("defer inside a loop")
+		}
+		for _, a := range x.Call.Args {
+			e.val(a)
+		}
 		e.defers = append(e.defers, deferred{ins: x, block: e.curBlock})
+		h.m[fmt.Sprintf("$s:defer%d", len(e.defers)-1)] = "true"
+		e.heapSort[fmt.Sprintf("$s:defer%d", len(e.defers)-1)] = "Bool"
 	case *ssa.RunDefers:
 		for i := len(e.defers) - 1; i >= 0; i-- {
 			d := e.defers[i]
-			if !d.block.Dominates(e.curBlock) {
-				e.unsupp("conditional defer")
+			if d.block.Dominates(e.curBlock) {
+				e.call(d.ins, d.ins.Common(), nil)
 				continue
 			}
+			// conditionally registered defer: run it on a forked heap under its ghost flag, then join
+			cond := e.fresh("deferred", "Bool")
+			e.assert(app("=", cond, e.heapGet(e.cur, fmt.Sprintf("$s:defer%d", i), "Bool")))
+			saved := e.cur
+			e.cur = saved.clone()
+			oldReach := e.reach[e.curBlock]
+			e.reach[e.curBlock] = and(oldReach, cond)
 			e.call(d.ins, d.ins.Common(), nil)
+			e.reach[e.curBlock] = oldReach
+			e.cur = e.joinHeaps([]epParent{{cond: cond, h: e.cur}, {cond: "true", h: saved}})
 		}
 	case *ssa.Go:
 		e.unsupp("go statement")
@@ -877,6 +1073,11 @@ func (e *Enc) unop(x *ssa.UnOp) {
 	v := e.val(x.X)
 	switch x.Op {
 	case token.MUL:
+		if g, ok := x.X.(*ssa.Global); ok && e.w.NonNilGlobal[g] {
+			// init-only package-level error value: a fixed non-nil object, distinct per variable
+			e.define(x, app("obj", ilit(globalID("val:"+g.String()))))
+			return
+		}
 		e.nilCheck(v.T, x.X, x.Pos(), "load")
 		e.lockCheck(x.X, false, x.Pos())
 		t := e.load(e.cur, v.T, x.X, x.Type())
@@ -1185,7 +1386,7 @@ func (e *Enc) sliceOp(x *ssa.Slice) {
 		hi := get(x.High, app("strlen", v.T))
 		e.oblige("slice", desc, "", x.Pos(), e.guardGoal(and(app("<=", "0", lo), app("<=", lo, hi), app("<=", hi, app("strlen", v.T)))))
 		n := e.fresh("substr", "Str")
-		e.assert(app("=", app("strlen", n), app("-", hi, lo)))
+		e.assert(implies(and(app("<=", "0", lo), app("<=", lo, hi)), app("=", app("strlen", n), app("-", hi, lo))))
 		e.define(x, n)
 	case *types.Pointer:
 		arr := under(u.Elem()).(*types.Array)
@@ -1261,4 +1462,13 @@ func fmtKeys(m map[string]bool) string {
 	}
 	sort.Strings(ks)
 	return strings.Join(ks, ",")
+}
+
+func predIndex(b, p *ssa.BasicBlock) int {
+	for i, pp := range b.Preds {
+		if pp == p {
+			return i
+		}
+	}
+	return 0
 }
